@@ -563,6 +563,7 @@ class Stage:
         self.nviol = 0
         self.ntext = self.nload = self.nvals = 0
         self.driver_failed = None
+        self.found = {}
 
     def run(self, cases, extra_lines=(), extra_model=()):
         """cases: dict(line, feats, key, tables?).  -> (parsed records, harness outputs of extra_lines, model outputs of extra_model)"""
@@ -610,7 +611,7 @@ class Stage:
             if r is None:
                 fk = next((f_[len("dedicated_"):] for f_ in c["feats"] if f_.startswith("dedicated_")), None)
                 if fk and fk in known:
-                    rep.finding("%s (%s)  [case: %s]" % (FINDINGS[fk], case_errs[ci][:160], key[:200]))
+                    self.found.setdefault(fk, []).append("%s (%s)" % (key[:200], case_errs[ci][:120]))
                 else:
                     rep.violation("C13: the library crashed / was stopped by the sanitizer while dumping, loading or encoding: %s  [case: %s]" % (case_errs[ci], key[:300]),
                                   dict(robj, stderr=case_errs[ci])); self.nviol += 1
@@ -655,7 +656,7 @@ class Stage:
                 if fk is None and i > 0:
                     fk = next((classify_failure(c, m, j) for j, m in enumerate(r["msgs"][:i]) if classify_failure(c, m, j)), None)   # an earlier dataset broke the reading
                 if fk and fk in known:
-                    rep.finding("%s  [case: %s]" % (FINDINGS[fk], key[:240]))
+                    self.found.setdefault(fk, []).append(key[:240])
                     feat["finding_" + fk] += 1
                 else:
                     rep.violation("C13: %s%s  [case: %s]" % (f, (" (class %s)" % fk) if fk else "", key[:400]), dict(robj, library=str(r["head"])[:300], dataset=i))
@@ -785,6 +786,8 @@ def run(rep, tier, seed, replay=None):
         st.run(s2)
     nviol = st.nviol
     feat = st.feat
+    for fk, ws in sorted(st.found.items()):
+        rep.finding("%s  [%d case(s) of this run, first: %s]" % (FINDINGS[fk], len(ws), ws[0]))
     # ---- printf/strtod contract, binary
     ncontract = 0
     for j, (n, s) in enumerate(contract):
